@@ -455,6 +455,25 @@ impl World {
         (body, shared, same_block_spend)
     }
 
+    /// Builds (and on regtest mines) a block on `parent` and registers it in the model as
+    /// existing but not admitted. Returns its id.
+    #[allow(clippy::too_many_arguments)]
+    pub fn mine_detached(
+        &mut self,
+        parent: usize,
+        coinbase: &[(u8, u16)],
+        txs: &[TxSpec],
+        reuse: Option<u16>,
+        dt: u16,
+    ) -> (usize, bool, bool) {
+        let (body, shared, sbs) = self.build_body(parent, coinbase, txs, reuse);
+        let prev = self.model.blocks[parent].block.block_hash();
+        let time = self.model.blocks[parent].block.header.time + (dt as u32).max(1);
+        let block = chain::build_block(self.cfg.net, prev, time, body, true);
+        let id = self.model.add_block_detached(parent, block, 1);
+        (id, shared, sbs)
+    }
+
     /// Pushes an already built block to the canister the way this history's driver does.
     pub fn push_to_sut(&self, block: &bitcoin::Block, diff: u128) -> Result<(), String> {
         let r = if self.cfg.validated {
